@@ -442,8 +442,102 @@ def fuzz_stream_case(ctx, case):
         ctx.nt('fz', b)
 
 
+def sessions_case(ctx, case):
+    """Several sessions on ONE Connection object, each with its own
+    compression / cipher setting and its own way of ending: every session
+    must start from a clean framing state (nothing of the previous session's
+    threshold or cipher may be in force until the server announces it).
+    case {sessions: [{compress, encrypt, end}], reconnect: 'direct' |
+    'disconnect_first'}"""
+    from vlib import servers
+    sess = case['sessions']
+    ctx.ev()
+    srvs = []
+
+    def factory(addr):
+        i = len(srvs)
+        sp = sess[min(i, len(sess) - 1)]
+        login = []
+        if sp.get('encrypt'):
+            login.append(('encrypt', 1024, b'\x01\x02\x03\x04', '-'))
+        if sp.get('compress') is not None:
+            login.append(('compress', sp['compress']))
+        login.append(('success',))
+        end = sp['end']
+        spec = {'version': 757, 'login': login, 'play': {
+            'bursts': [[('keep_alive', {'keep_alive_id': 77 + i})]],
+            'mode': 'reactive',
+            'end': {'disconnect': 'disconnect', 'eof': 'eof'}.get(end,
+                                                                  'silent')}}
+        if end == 'garbage':
+            spec['play']['bursts'].append([('raw', 0x21, b'\x80')])
+        s_ = servers.Server(spec)
+        srvs.append(s_)
+        return s_
+    world = vnet.World(default=factory)
+    from minecraft.networking.connection import Connection
+    excs = []
+    with vnet.installed(world):
+        def on_exc(exc, info):
+            excs.append(exc)
+            if len(srvs) < len(sess):
+                if case.get('reconnect') != 'direct':
+                    conn.disconnect(immediate=True)
+                conn.connect()
+        conn = Connection('localhost', 25565, username='u',
+                          allowed_versions={757}, handle_exception=False)
+        conn.register_exception_handler(on_exc)
+        conn.connect()
+        done_user = set()
+        for _ in range(4 * len(sess) + 4):
+            st_ = world.settle()
+            if st_ == 'timeout':
+                from vlib.core import HarnessError
+                raise HarnessError('C01 sessions case did not settle')
+            cur = len(srvs) - 1
+            sp = sess[min(cur, len(sess) - 1)]
+            if st_ in ('idle', 'blocked'):
+                if st_ == 'idle' and cur not in done_user and sp['end'] in (
+                        'user_disconnect', 'user_immediate'):
+                    done_user.add(cur)
+                    conn.disconnect(immediate=sp['end'] == 'user_immediate')
+                    continue
+                ctx.fail('sessions', 'S-session-stuck',
+                         dict(case, session=cur),
+                         '%s; server errors %r' % (st_, srvs[cur].errors[:2]))
+                return
+            # all threads ended
+            if len(srvs) >= len(sess):
+                break
+            try:
+                conn.connect()      # previous session ended cleanly
+            except Exception as e:
+                ctx.fail('sessions', 'S-reconnect-raised',
+                         dict(case, session=len(srvs)), exc=e)
+                return
+    if len(srvs) != len(sess):
+        ctx.fail('sessions', 'S-session-count', case, len(srvs), len(sess))
+        return
+    for i, (sp, sv) in enumerate(zip(sess, srvs)):
+        if sv.errors:
+            ctx.fail('sessions', 'W1-stale-framing-state',
+                     dict(case, session=i), sv.errors[:2],
+                     'well-formed client stream from a clean state')
+            return
+        if sv.replies != [('keep_alive', 77 + i)]:
+            ctx.fail('sessions', 'R1-session-not-understood',
+                     dict(case, session=i), sv.replies,
+                     [('keep_alive', 77 + i)])
+            return
+    if len(sess) >= 2 and len({(x.get('compress'), bool(x.get('encrypt')))
+                               for x in sess}) >= 2:
+        ctx.nt('sess', repr(case))
+    ctx.label('sessions')
+
+
 COMPONENTS = {'writer': writer_case, 'reader': reader_case,
-              'loop': loop_case, 'fuzz_stream': fuzz_stream_case}
+              'loop': loop_case, 'fuzz_stream': fuzz_stream_case,
+              'sessions': sessions_case}
 
 
 # --------------------------------------------------------------- strategies
@@ -558,6 +652,35 @@ def t_threshold_edges(ctx):
                         'table threshold')
 
 
+def t_sessions(ctx, n):
+    ends = ['disconnect', 'eof', 'garbage', 'user_disconnect',
+            'user_immediate']
+    for rc in ('direct', 'disconnect_first'):
+        for e1 in ends:
+            for c1, x1, c2, x2 in ((64, False, None, False),
+                                   (None, True, 0, False),
+                                   (0, True, None, False),
+                                   (256, False, 0, True)):
+                sessions_case(ctx, {'reconnect': rc, 'sessions': [
+                    {'compress': c1, 'encrypt': x1, 'end': e1},
+                    {'compress': c2, 'encrypt': x2, 'end': 'disconnect'}]})
+    ctx.exhaustive_done('two-session table: 5 endings x 2 reconnect styles '
+                        'x 4 framing-state changes')
+    sp = st.fixed_dictionaries({
+        'compress': st.sampled_from([None, 0, 64, 256, -1]),
+        'encrypt': st.booleans(), 'end': st.sampled_from(ends)})
+    strat = st.fixed_dictionaries({
+        'sessions': st.lists(sp, min_size=2, max_size=4),
+        'reconnect': st.sampled_from(['direct', 'disconnect_first'])})
+
+    def body(c, case):
+        case['sessions'][-1]['end'] = 'disconnect'
+        sessions_case(c, case)
+        if c.evaluations % 40 == 1:
+            c.sample(case, 'sessions')
+    hyp(ctx, 'sessions', strat, body, n)
+
+
 def t_fuzz(ctx, runs):
     from vlib import fuzzrun
     seeds = []
@@ -594,6 +717,7 @@ def tasks(tier):
     q = tier == 'quick'
     ncomb = len(FAMILY) * len(MODES) * 2
     tl = [('threshold_edges', t_threshold_edges, {}),
+          ('sessions', t_sessions, dict(n=40 if q else 1500)),
           ('mutated_streams', t_fuzz_hyp, dict(n=400 if q else 20000))]
     if not q:
         tl.append(('fuzz_stream', t_fuzz, dict(runs=400000)))
